@@ -2,6 +2,7 @@ package main
 
 import (
 	"encoding/csv"
+	"fmt"
 	"math/rand"
 	"os"
 	"path/filepath"
@@ -91,7 +92,8 @@ func runGrid(style string, rows [][]string) string {
 	if sh == nil || sh.Table == nil {
 		return "nosheet"
 	}
-	return "rows " + encGrid(sh.Table.Rows)
+	// the table's declared extent bounds every parser loop: it must reach every row and the widest row
+	return fmt.Sprintf("rows %s max %dx%d", encGrid(sh.Table.Rows), sh.Table.MaxRow, sh.Table.MaxCol)
 }
 
 func init() {
@@ -104,6 +106,12 @@ func init() {
 				nc := 1 + r.Intn(5)
 				for c := 0; c < nc; c++ {
 					rows[k] = append(rows[k], gridCells[r.Intn(len(gridCells))])
+				}
+			}
+			if r.Intn(4) == 0 && len(rows) > 1 {
+				rows[0] = rows[0][:1] // a short first row (a title line above the header)
+				if rows[0][0] == "" {
+					rows[0][0] = "title"
 				}
 			}
 			emit("imp.grid", styles[i%len(styles)], encGrid(rows))
